@@ -12,7 +12,7 @@ from rv.harness import exact
 
 LEVEL = "exploration"
 RULE = ("every algorithm (11 partitioners, 5 packers, 3 coverers; exact ones inside the cost envelope) x generated inputs of the C01/C03/C05 classes; "
-        "each case is executed with all 10 output types; non-trivial = at least two bins with different sums; distinct on (algorithm, config, size, value sequence)")
+        "each case is executed with all 10 output types (every 15th case: ckk / snp / complete greedy on 9-11 items, full partition vs Sums / SortedSums only); non-trivial = at least two bins with different sums; distinct on (algorithm, config, size, value sequence)")
 ASSUMPTIONS = ["largest/smallest/extreme/difference are undefined for zero bins and skipped there", "bin-completion with list/array presentation (names: C07)"]
 FLOORS = {"quick": {"distinct_nontrivial": 800}, "thorough": {"distinct_nontrivial": 4000}}
 SUMS_TYPES = ("Sums", "SortedSums", "LargestSum", "SmallestSum", "ExtremeSums", "Difference", "BinCount")
@@ -60,7 +60,7 @@ def judge(case, ctx):
     expect = {"Sums": ms, "SortedSums": srt, "BinCount": len(lists)}
     if lists:
         expect.update({"LargestSum": srt[-1], "SmallestSum": srt[0], "ExtremeSums": (srt[0], srt[-1]), "Difference": srt[-1] - srt[0]})
-    for ot in SUMS_TYPES + ("Partition", "PartitionAndSums"):
+    for ot in (case.get("only_types") or (SUMS_TYPES + ("Partition", "PartitionAndSums"))):
         if ot not in expect and ot in SUMS_TYPES:
             continue
         r2, _, _ = run(case, ot, ctx)
@@ -96,6 +96,18 @@ def judge(case, ctx):
 
 
 def draw(rng, i):
+    if i % 15 == 14:
+        # the search algorithms at 9-11 items: the sums-only and the contents-keeping manager must end on the same answer although they de-duplicate
+        # differently; only the pair (full partition, Sums / SortedSums) is compared here to keep the case affordable
+        alg = rng.choice(["ckk", "ckk", "snp", "cg"])
+        k = rng.choice([3, 4, 4])
+        n = rng.randint(9, 10 if alg != "cg" else 11)
+        case = {"kind": "partition", "alg": alg, "k": k, "values": [rng.randint(1, rng.choice([12, 50, 50, 1000])) for _ in range(n)], "cls": "search_9_11_items",
+                "pres": "list", "pres_seed": 0, "only_types": ["Sums", "SortedSums"]}
+        if alg == "cg":
+            case["objective"] = [rng.choice(["maxmin", "minmax", "diff"]), None]
+            case["cg_mask"] = rng.choice([11, 15, 3, rng.randrange(16)])
+        return case
     which = i % 19
     if which < 11:
         case = C.draw_partition_case(rng, alg=C.ALL_PART[which], pres=rng.choice(["list", "list", "array", "dict_str", "names_int"]))
